@@ -11,7 +11,7 @@ from . import smt
 from .engine import CONTAINER_CLASSES
 from .smt import (AND, FALSE, I, NOT, OR, S, TRUE, Val, b_of, boolv, i_of, intv, is_bool, is_int, is_none, is_ref,
                   is_str, none, r_of, ref, s_of, strv)
-from .values import (SV, Args, BoolTermV, BoundV, BuiltinV, ClassV, Frame, FuncV, LambdaV, ModuleV, Out, RawV,
+from .values import (PropV, IterV, SV, Args, BoolTermV, BoundV, BuiltinV, ClassV, Frame, FuncV, LambdaV, ModuleV, Out, RawV,
                      SeqTermV, St, SuperV, TupleV, Unsupported, V)
 
 EXTERNAL_MODULES = {'asyncio', 'kiwipy', 'copy', 'inspect', 'functools', 'sys', 'os', 'pickle', 'yaml', 'uuid',
@@ -206,7 +206,8 @@ class ExprMixin:
             if f.kind == 'class':
                 return BoundV(FuncV(f), ClassV(ci))
             if f.kind == 'property':
-                return SV(ref(I(self.const_id(f'property:{f.qualname}'))), 'ref', self.cls('property'), True)
+                setter = ci.lookup_setter(name)
+                return PropV(f, setter)
             return FuncV(f)
         if owner is not None:
             if self.cls('enum.Enum') in owner.mro and owner.qualname != 'enum.Enum':
@@ -270,6 +271,12 @@ class ExprMixin:
             raise Unsupported(f'attribute {name} of bound method', node)
         if isinstance(base, BuiltinV):
             return self.ok(st, BuiltinV(base.name + '.' + name))
+        if isinstance(base, PropV):
+            if name == 'fset':
+                return self.ok(st, FuncV(base.setter) if base.setter is not None else self.py_none())
+            if name == 'fget':
+                return self.ok(st, FuncV(base.getter))
+            raise Unsupported(f'attribute {name} of property object', node)
         if isinstance(base, SV):
             return self.getattr_sv(st, base, name, node)
         raise Unsupported(f'getattr on {base!r}', node)
@@ -284,6 +291,19 @@ class ExprMixin:
             if f.kind == 'static':
                 return self.ok(st, FuncV(f))
             if f.kind == 'property':
+                if getattr(base, 'is_class', False):
+                    # super(C, cls).prop is the property object itself
+                    setter = None
+                    seen = False
+                    for k in base.selfv_cls.mro:
+                        if seen and name in k.setters:
+                            setter = k.setters[name]
+                            break
+                        if seen and name in k.methods:
+                            break
+                        if k is base.after:
+                            seen = True
+                    return self.ok(st, PropV(f, setter))
                 return self.call_function(st, FuncV(f), Args([base.selfv]))
             return self.ok(st, BoundV(FuncV(f), base.selfv))
 
@@ -390,6 +410,9 @@ class ExprMixin:
         for k in c.mro:
             if name in k.methods or name in k.class_attrs:
                 break
+            if k.external and k.qualname in ('collections.abc.Mapping', 'collections.abc.MutableMapping') \
+                    and name in ('items', 'keys', 'values', 'get', '__contains__') and self.mapping_delegate(c) is not None:
+                return ('bmeth', 'mapping.' + name)
             if k.external:
                 bname = ('set' if k.qualname == 'frozenset' else k.qualname) + '.' + name
                 if self.lib_contract(bname) is not None or hasattr(self, 'bm_' + bname.replace('.', '_')):
@@ -405,6 +428,9 @@ class ExprMixin:
         if owner is not None:
             if self.cls('enum.Enum') in c.mro:
                 return ('enumattr', owner)
+            if not any(name in k.inst_attrs for k in c.mro):
+                # a class-level constant that no method of the hierarchy ever assigns through an instance
+                return ('classconst', owner)
             return ('heapdef', owner)
         if name in ('__class__', '__dict__', '__name__', '__self__', '__func__', '__wrapped__', '__module__', '__traceback__'):
             return ('heap', None)
@@ -429,6 +455,8 @@ class ExprMixin:
             return self.ok(st, BoundV(FuncV(res[1]), self.class_of_value(st, v)))
         if kind == 'enumattr':
             raise Unsupported(f'enum attribute {name}', node)
+        if kind == 'classconst':
+            return self.ok(st, self.class_attr_value(st, res[1], name, node))
         if kind in ('heap', 'heapdef'):
             if name == '__class__':
                 return self.ok(st, self.class_of_value(st, v))
